@@ -96,7 +96,7 @@ Definition j_resolve (st : jstate) (te : tevent) : event :=
 Definition j_ev_li (st : jstate) (ev : event) : nat :=
   match ev with
   | EvUdp li _ _ _ => li
-  | EvTcpData c _ => match find (fun x => Nat.eqb (fst x) c) (js_conns st) with Some (_, (li, _, _)) => li | None => O end
+  | EvTcpData c _ => match find (fun x => Nat.eqb (fst x) c) (js_conns st) with Some (_, (li, _, _)) => unmark li | None => O end
   | _ => O
   end.
 (* bytes written on a connection to a current backend of a TCP listen entry, shown under that backend's address *)
@@ -107,7 +107,8 @@ Definition relabel (tb : list bool) (st : jstate) (li : nat) (outs : list (bytes
            match atoi (skipn 5 (fst o)) with
            | Some id =>
                match find (fun x => Nat.eqb (fst x) (Z.to_nat id)) cs with
-               | Some (_, (cli, ip, port)) =>
+               | Some (_, (mli, ip, port)) =>
+                   let cli := unmark mli in      (* the record of a dialled connection carries the mark (SpecProxy.dial_mark) *)
                    let a := ip ++ ":"%char :: itoa port in
                    if (is_tb tb cli && mem_bytes a (match nth_opt (js_backends st) cli with Some l => l | None => [] end))%bool
                    then (udp_label ip port, snd o) else o
@@ -125,7 +126,7 @@ Definition to_the_service (c : cfg) (st : jstate) (ev : event) : bool :=
       match j_read (ji_data i), nth_opt (c_listens c) (ji_li i) with
       | Some m, Some lc =>
           match j_request m with
-          | Some q => match j_choose c lc (ji_tcp i) q with HHop _ => false | _ => true end
+          | Some q => match j_choose_d (ji_dialled st i) c lc (ji_tcp i) q with HHop _ => false | _ => true end
           | None => true
           end
       | _, _ => true
